@@ -750,6 +750,171 @@ func mixedDynamicTypes() {
 	}
 }
 
+// missingKeys: a transformer may have no key for a record (it returns nil). Two records that both lack a key
+// tie on it, so the later descriptors decide between them; where a record without the key goes relative to
+// one that has it is not demanded. Every pair of the output whose order the descriptors define (no
+// missing-versus-present comparison before the deciding key) must be in that order. All lists up to a
+// length over A in {missing, 0, 1} x B in {0,1} x C in {0,1}, stacks of 2..3 keys with A in every position.
+type MRow struct {
+	A, B, C int // A < 0: the record has no A key
+	Tag     int
+}
+
+func missingKeys(maxLen int) {
+	keyOf := func(k byte) func(x MRow) fpgo.Comparable[interface{}] {
+		return func(x MRow) fpgo.Comparable[interface{}] {
+			switch k {
+			case 'A':
+				if x.A < 0 {
+					return nil
+				}
+				return fpgo.NewComparableOrdered(x.A)
+			case 'B':
+				return fpgo.NewComparableOrdered(x.B)
+			}
+			return fpgo.NewComparableOrdered(x.C)
+		}
+	}
+	val := func(k byte, x MRow) int {
+		switch k {
+		case 'A':
+			return x.A
+		case 'B':
+			return x.B
+		}
+		return x.C
+	}
+	var syms []MRow
+	for a := -1; a <= 1; a++ {
+		for b := 0; b < 2; b++ {
+			for c := 0; c < 2; c++ {
+				syms = append(syms, MRow{A: a, B: b, C: c})
+			}
+		}
+	}
+	var lists [][]MRow
+	var gen func(cur []MRow, n int)
+	gen = func(cur []MRow, n int) {
+		if len(cur) == n {
+			l := append([]MRow{}, cur...)
+			for i := range l {
+				l[i].Tag = i
+			}
+			lists = append(lists, l)
+			return
+		}
+		for _, s := range syms {
+			gen(append(cur, s), n)
+		}
+	}
+	for n := 2; n <= maxLen; n++ {
+		gen(nil, n)
+	}
+	// long lists (merge path): 25 records without the A key whose B and C keys run against the input order
+	for _, period := range []int{1, 2, 3} {
+		var l []MRow
+		for i := 0; i < 25; i++ {
+			a := -1
+			if period == 3 && i%7 == 0 {
+				a = 1
+			}
+			l = append(l, MRow{A: a, B: (24 - i) / period % 2, C: (24 - i) % 2, Tag: i})
+		}
+		lists = append(lists, l)
+	}
+	show := func(l []MRow) string {
+		var p []string
+		for _, x := range l {
+			a := fmt.Sprint(x.A)
+			if x.A < 0 {
+				a = "-"
+			}
+			p = append(p, fmt.Sprintf("%s%d%d#%d", a, x.B, x.C, x.Tag))
+		}
+		return "[" + strings.Join(p, " ") + "]"
+	}
+	for _, keys := range []string{"AB", "BA", "ABC", "BAC", "BCA", "AC", "ACB"} {
+		for m := 0; m < 1<<len(keys); m++ {
+			b := fpgo.NewSortDescriptorsBuilder[MRow]()
+			var names []string
+			asc := make([]bool, len(keys))
+			for i := range keys {
+				asc[i] = m&(1<<i) != 0
+				b = b.ThenWithTransformerFunctor(keyOf(keys[i]), asc[i])
+				names = append(names, fmt.Sprintf("%c asc=%v", keys[i], asc[i]))
+			}
+			// defined order of a pair: +1 x must follow y, -1 x must precede y, 0 tie or not defined
+			cmp := func(x, y MRow) int {
+				for i := range keys {
+					vx, vy := val(keys[i], x), val(keys[i], y)
+					if keys[i] == 'A' && (vx < 0) != (vy < 0) {
+						return 0 // missing versus present: not demanded
+					}
+					if keys[i] == 'A' && vx < 0 {
+						continue // both missing: a tie on this key
+					}
+					d := vx - vy
+					if !asc[i] {
+						d = -d
+					}
+					if d != 0 {
+						return d
+					}
+				}
+				return 0
+			}
+			for _, in := range lists {
+				inputs++
+				for _, api := range []string{"ToSortedList", "SortedListBySortDescriptors", "Builder.Sort"} {
+					evals++
+					l := append([]MRow{}, in...)
+					var out []MRow
+					p := lib.Catch(func() {
+						switch api {
+						case "ToSortedList":
+							out = b.ToSortedList(l...)
+						case "SortedListBySortDescriptors":
+							out = fpgo.SortedListBySortDescriptors(b.GetSortDescriptors(), l...)
+						default:
+							b.Sort(l)
+							out = l
+						}
+					})
+					if p != "" {
+						bad(api, "panic|missing-key", "%s by %v on %s (- = no A key): %s", api, names, show(in), p)
+						continue
+					}
+					if api != "Builder.Sort" && show(l) != show(in) {
+						bad(api, "input-modified", "%s by %v changed its input %s to %s", api, names, show(in), show(l))
+					}
+					seen := map[int]bool{}
+					ok := len(out) == len(in)
+					for _, x := range out {
+						if !ok || x.Tag >= len(in) || seen[x.Tag] || x != in[x.Tag] {
+							ok = false
+							break
+						}
+						seen[x.Tag] = true
+					}
+					if !ok {
+						bad(api, "permutation", "%s by %v on %s gives %s: not a permutation", api, names, show(in), show(out))
+						continue
+					}
+				pairs:
+					for i := range out {
+						for j := i + 1; j < len(out); j++ {
+							if cmp(out[i], out[j]) > 0 {
+								bad(api, "lexicographic|missing-key", "%s by %v on %s (- = the record has no A key) gives %s: %v precedes %v, which the later keys place first (two records without a key tie on it)", api, names, show(in), show(out), out[i], out[j])
+								break pairs
+							}
+						}
+					}
+				}
+			}
+		}
+	}
+}
+
 func main() {
 	r = lib.NewReport("C19")
 	maxLen, rowLen := 4, 3
@@ -827,6 +992,7 @@ func main() {
 	localTypes()
 	extremeKeys()
 	mixedDynamicTypes()
+	missingKeys(rowLen)
 	// once more in the same process, after every record type, field name and stack has been sorted once (a
 	// descriptor's meaning must not depend on what was sorted before); the row lists one element shorter
 	skipLongRows = true
